@@ -63,3 +63,9 @@ chk("C16", "other",
     "Real-arithmetic model; the if-conversion is a trusted source transformation (recorded in the evidence); exact ties of the maximal trace are excluded by hypothesis and reported as a known finding; quick tier pre-applies a subset of the operators of the 12- and 24-element groups (all in thorough).",
     "AST if-conversion + symbolic execution of the Python source (pysym) + z3 validity queries; exhaustive finite group checks; counterexamples replayed on the real functions", "DESIGN.md 3/C16", "pysym")
 del NA["C16"]
+
+chk("C03", "other",
+    "Centring rules: CrossHair (symbolic execution of Python ints with z3) confirms every rule reached through the real outif table against the International-Tables condition for ALL integer hkl, with a reachability twin per rule. gethkls: the real method (final sort removed by an AST cut) is executed by pysym on symbolic reciprocal metrics of the orthogonal cell family with a symbolic d* limit (index box 1, thorough 2; monoclinic-b family as a thorough stretch obligation): each path lists concrete hkl and z3 decides whether an allowed reflection of the box below the limit is missing or a listed one is forbidden / not below the limit / duplicated / carries the wrong d*. makerings: executed on an arbitrary ascending list of <=4 (5) symbolic d* values and a symbolic tolerance.",
+    "Real-arithmetic model; sqrt compared through its radicand; orthogonal (and monoclinic-b) metric families only: general triclinic metrics are not covered symbolically; index box <= 2; the ordering of the final list is list.sort (cut).",
+    "CrossHair + symbolic execution of the Python source (pysym) with solver-quantified completeness/soundness oracle; counterexamples replayed on the real unitcell class against brute force", "DESIGN.md 3/C03", "crosshair+pysym")
+del NA["C03"]
